@@ -959,3 +959,4 @@ def oracle_c15(evs, term, case):
             if len(out) >= 3:
                 break
     return out
+
